@@ -506,6 +506,17 @@ def api3_scenarios(ctx):
         A(["nf %d" % w, "sf %d 0 %x" % (w, pats[2]), "vals 0", "sf %d 0 %x" % (w, pats[3]), "vals 0", "nia", "pushmv 1 0", "ser 1 12", "get 1 0", "sf %d 2 %x" % (w, pats[0]), "ser 1 12"])
         A(["bf %d %x" % (w, pats[2]), "sf %d 0 %x" % (w, pats[4]), "vals 0", "ser 0 9"])
         A(["nf %d" % w, "inc 0", "preds 0", "dec 0", "preds 0"])
+    # cbor_float_get_float widens the stored float of a half / single item to a double (model: PWiden.widen32; the vals
+    # word prints the bits of that double): binary32 subnormals with the leading mantissa bit at each of the 23 positions
+    # (all of them normal doubles), both signs, the smallest / largest normals; halves of every class (subnormal halves
+    # are binary32 normals), and binary32 subnormals held by a half item
+    for p in range(23):
+        A(["nf 32", "sf 32 0 %x" % (1 << p), "vals 0", "sf 32 0 %x" % (0x80000000 | ((2 << p) - 1)), "vals 0"])
+    A(["nf 32", "sf 32 0 80000001", "vals 0", "sf 32 0 400000", "vals 0", "sf 32 0 800000", "vals 0", "sf 32 0 80800000", "vals 0",
+       "sf 32 0 7f7fffff", "vals 0", "sf 32 0 ff7fffff", "vals 0", "sf 32 0 807fffff", "vals 0", "sf 32 0 7fffff", "vals 0", "sf 32 0 1", "vals 0"])
+    for hs in ((0x0001, 0x8001, 0x0200, 0x03FF, 0x83FF), (0x0400, 0x8400, 0x3555, 0x7BFF, 0xFBFF), (0x0000, 0x8000, 0x7C00, 0xFC00, 0x7E00, 0xFE01)):
+        A(["nf 16"] + [o for h in hs for o in ("sf 16 0 %x" % half_to_f32bits(h), "vals 0")])
+    A(["nf 16", "sf 16 0 1", "vals 0", "sf 16 0 807fffff", "vals 0", "sf 16 0 400000", "vals 0"])
     # ---- ctrl values 0..255 through new_ctrl / set_ctrl; booleans; null / undef
     for v in range(256):
         size = 1 if v <= 23 else 2
